@@ -72,6 +72,10 @@ SITE_DECIDED = {
     ('dimarray.dataset.Dataset.reindex_axis', 'self'):
         'fills / relabels the result of take_axis: variables that have the dimension are fresh (np.take), variables lacking it keep the '
         'operand buffer and are skipped by the has-dimension guard (decided by C15-R4)',
+    ('dimarray.core.reshape.reshape', 'self'):
+        "the temporary ',' <-> ';' renaming acts on the Axis objects of a working array that was rebuilt around copies of the axes "
+        '([ax.copy() for ax in o.axes]) and then only passed through squeeze / transpose / newaxis / flatten, which keep those copies: '
+        'decided structurally by C11-R4, re-run as C15-R5',
 }
 
 
@@ -99,7 +103,14 @@ def inside(v, field=None):
     # depth: 0 = the root object itself; a field name = inside the root through that field; 1 = inside, unknown path
     shell = set()
     for r, d in v[0]:
-        shell.add((r, (field or 1) if d == 0 else d))
+        # depth tags: 0 = the root object itself; 'F' = exactly the object stored in its field F; 'F+' = strictly inside that field; 1 = inside, unknown path
+        if d == 0:
+            nd = field or 1
+        elif isinstance(d, str) and not d.endswith('+'):
+            nd = d + '+'
+        else:
+            nd = d
+        shell.add((r, nd))
     for r in v[1]:
         if not any(x == r for x, d in v[0]):
             shell.add((r, 1))
@@ -145,7 +156,11 @@ class Effects(object):
     def __init__(self, program):
         self.P = program
         self.cache = {}
-        self.in_progress = {}
+        self.meta = {}
+        self.deps = {}
+        self.worklist = set()
+        self.current = None
+        self.evals = {}
         self.changed = False
         self.first_param_types = self._first_param_types()
         self.calls_resolved = 0
@@ -334,6 +349,44 @@ class Effects(object):
                             out.append(tgt)
             out.append(('external', 'any.' + name, {'recv': recv}))
             return out
+        if f[0] == 'param' and fi.cls is not None and fi.params and f[1] == fi.params[0] and f[1] == 'cls':
+            # cls(...) inside a classmethod: the constructor of the class (subclasses construct the same way)
+            return [('ctor', fi.cls, None)]
+        if f[0] == 'phi':
+            out = []
+            for alt in T.strip_phi(f):
+                if alt[0] in ('carried', 'param', 'const'):
+                    continue
+                for t in self.resolve(('call', alt, call[2], call[3]), fi):
+                    if t not in out:
+                        out.append(t)
+            return out or [('unknown', T.show(f)[:40], None)]
+        if f[0] == 'call':
+            # calling what a repository function returned (func = _get_func(name, skipna); func(values, ...)): the repository functions among its results
+            inner = [t for t in self.resolve(f, fi) if t[0] == 'func' and t[1] is not None]
+            out = []
+            for _, g, _m in inner:
+                key = ('returns', g.qualname)
+                if key not in self.evals:
+                    try:
+                        ev = Evaluator(self.P, g, mode='join', max_paths=200000)
+                        ev.run()
+                        names = set()
+                        for p in ev.paths:
+                            if p.kind == 'return':
+                                for alt in T.strip_phi(p.value):
+                                    if alt[0] == 'name':
+                                        names.add(alt[1])
+                        self.evals[key] = names
+                    except AnalysisError:
+                        self.evals[key] = set()
+                for n in sorted(self.evals[key]):
+                    r = P.resolve_expr(g.module, ast.Name(id=n, ctx=ast.Load()))
+                    if r is not None and r[0] == 'func':
+                        out.append(('func', r[1], {'method': False}))
+            if out:
+                return out + [('unknown', T.show(f)[:40], None)]
+            return [('unknown', T.show(f)[:40], None)]
         if f[0] == 'localfn':
             g = P.functions.get(f[1])
             return [('func', g, {'method': False})] if g else [('unknown', f[1], None)]
@@ -581,6 +634,17 @@ class Effects(object):
             fs = set()
             for f, r in av[2]:
                 a = self.absval(binds[r], ctx) if r in binds and binds[r] is not None and binds[r][0] != 'SELF' else FRESH
+                if r in binds and binds[r] is not None and binds[r][0] != 'SELF' and not f.startswith('_values') \
+                        and self.type_of(binds[r], ctx['fi']) == 'ndarray':
+                    continue        # a plain ndarray argument has no axes / attrs to take over
+                basef = f[:-2] if f.endswith('!c') else f
+                if a[2] is not None and not a[0] and basef in ('_axes', '_values', '_attrs'):
+                    # the argument is itself a freshly built array with known fields: its axes come from its axes, its values from its values
+                    # (field-wise flow through the array operations of this package; C10-R1 / C08-R2 check that axes are built from axes)
+                    for f2, x in a[2]:
+                        if (f2[:-2] if f2.endswith('!c') else f2) == basef:
+                            fs.add((f if (f.endswith('!c') or f2.endswith('!c')) is False else basef + '!c', x))
+                    continue
                 sh = set(x for x, dd in a[0])
                 for x in roots_of(a):
                     fs.add((f if (x in sh or f.endswith('!c')) else f + '!c', x))
@@ -610,6 +674,8 @@ class Effects(object):
             for fld, ps in fc.items():
                 for p in ps:
                     if p in binds and binds[p] is not None and binds[p][0] != 'SELF':
+                        if not fld.startswith('_values') and self.type_of(binds[p], ctx['fi']) == 'ndarray':
+                            continue        # a plain ndarray argument has no axes / attrs to take over
                         a = self.absval(binds[p], ctx)
                         sh = set(x for x, dd in a[0])
                         for x in roots_of(a):
@@ -669,35 +735,61 @@ class Effects(object):
         return (fi.qualname, tuple(sorted((k, v) for k, v in config.items())))
 
     def summary(self, fi, config=None):
+        """Least fixpoint over the call graph (worklist): a nested request may see a provisional (smaller) summary of a function that is still being
+        computed or that will grow later; every (function, configuration) whose callee summary changes is re-evaluated until nothing changes, so the
+        result does not depend on the order in which summaries are requested.  Summaries only grow (sets of written roots, aliased roots)."""
         config = dict(config or {})
-        # only keep options that the function really branches on cheaply: bool / None / short str constants
         key = self._key(fi, config)
-        if key in self.cache and key not in self.in_progress:
-            return self.cache[key]
-        if key in self.in_progress:
-            self.in_progress[key] = True       # a cycle used the provisional summary
-            return self.cache.get(key) or Summary()
-        self.in_progress[key] = False
-        prev = self.cache.get(key)
-        for it in range(4):
-            s = self._compute(fi, config)
-            self.cache[key] = s
-            if not self.in_progress[key] or (prev is not None and prev.key() == s.key()):
-                break
-            prev = s
-            self.in_progress[key] = False
-        del self.in_progress[key]
+        if self.current is not None:
+            self.deps.setdefault(key, set()).add(self.current)
+        if key not in self.cache:
+            self.meta[key] = (fi, config)
+            self.cache[key] = Summary()           # bottom
+            self._recompute(key)
+        if self.current is None:
+            # top-level request: close the fixpoint
+            guard = 0
+            while self.worklist:
+                k = self.worklist.pop()
+                guard += 1
+                if guard > 20000:
+                    self.cache[key].notes.append('UNDECIDED: effect fixpoint did not converge')
+                    self.worklist.clear()
+                    break
+                self._recompute(k)
         return self.cache[key]
 
-    def _compute(self, fi, config):
-        self.evaluated += 1
-        bind = dict(config)
+    def _recompute(self, key):
+        fi, config = self.meta[key]
+        outer = self.current
+        self.current = key
         try:
-            ev = Evaluator(self.P, fi, bind=bind, mode='join', max_paths=200000, inline_depth=3)
-            ev.run()
-        except AnalysisError as e:
+            s = self._compute(fi, config)
+        finally:
+            self.current = outer
+        old = self.cache.get(key)
+        self.cache[key] = s
+        if old is None or old.key() != s.key() or set(old.field_caps) != set(s.field_caps) or \
+                any(old.field_caps.get(k) != v for k, v in s.field_caps.items()):
+            for dep in self.deps.get(key, ()):
+                if dep != key or True:
+                    self.worklist.add(dep)
+
+    def _compute(self, fi, config):
+        bind = dict(config)
+        ekey = self._key(fi, config)
+        ev = self.evals.get(ekey)
+        if ev is None:
+            self.evaluated += 1
+            try:
+                ev = Evaluator(self.P, fi, bind=bind, mode='join', max_paths=200000, inline_depth=3)
+                ev.run()
+            except AnalysisError as e:
+                ev = e
+            self.evals[ekey] = ev
+        if isinstance(ev, AnalysisError):
             s = Summary()
-            s.notes.append('UNDECIDED: %s' % e)
+            s.notes.append('UNDECIDED: %s' % ev)
             return s
         s = Summary()
         ctx = {'fi': fi, 'memo': {}, 'overrides': {}}
@@ -759,11 +851,22 @@ class Effects(object):
                 self.record(s, fi, roots, w, deep=True)
             else:
                 fld = kind.split(':', 1)[1]
+                plus = fld.endswith('+')            # the callee writes strictly inside the field (an element, a label buffer), not the field object itself
+                basef = fld.rstrip('+')
                 if av[2] is not None and not av[0]:
-                    # freshly constructed object with known fields: only what that field aliases
-                    roots = set((r, 1) for f, r in av[2] if f in (fld, fld + '!c'))
+                    # freshly constructed object with known fields: writing the field object itself only concerns roots that *are* that object;
+                    # writing inside it also concerns the roots its contents alias
+                    roots = set((r, 1) for f, r in av[2] if f == basef or (plus and f == basef + '!c'))
                 else:
-                    roots = set((r, fld if d == 0 else d) for r, d in av[0]) | set((r, 1) for r in av[1] if not any(x == r for x, dd in av[0]))
+                    roots = set()
+                    for r, d in av[0]:
+                        if d == 0:
+                            roots.add((r, fld))
+                        elif isinstance(d, str) and not d.endswith('+'):
+                            roots.add((r, d + '+'))
+                        else:
+                            roots.add((r, d))
+                    roots |= set((r, 1) for r in av[1] if not any(x == r for x, dd in av[0]))
                 self.record(s, fi, roots, w, deep=True)
 
     def event_effects(self, e, fi, ctx, s):
@@ -871,6 +974,12 @@ class Effects(object):
                 if (g.startswith('np.') or g.startswith('numpy.')) and short in NP_WRITERS and call[2]:
                     target = self.absval(call[2][NP_WRITERS[short]], ctx)
                     self.record(s, fi, target[0], '%s: %s np.%s writes into its argument' % (fi.qualname, where, short))
+                # np.median / np.percentile / np.partition-style options that let NumPy scribble over its input, and out= buffers
+                if (g.startswith('np.') or g.startswith('numpy.') or g.startswith('bottleneck.')) and call[2]:
+                    ow = T.kw(call, 'overwrite_input')
+                    if ow is not None and ow != T.CONST_FALSE:
+                        target = self.absval(call[2][0], ctx)
+                        self.record(s, fi, target[0], '%s: %s %s(..., overwrite_input=%s) may reorder its input in place' % (fi.qualname, where, g, T.show(ow)[:20]))
                 if g in ('setattr', 'delattr') and call[2]:
                     target = self.absval(call[2][0], ctx)
                     self.record(s, fi, target[0], '%s: %s %s(%s, ...)' % (fi.qualname, where, g, T.show(call[2][0])[:40]))
